@@ -105,13 +105,8 @@ theorem single_document_class_serialises (cfg : Config) (o : Oracle) (doc : Str)
     ∃ order : List Nat, order.Nodup ∧ (∀ j, j ∈ order ↔ j < calls.length) ∧
       fin.w = (seqRun progs order w0).1 ∧
       ∀ (j : Nat) (t : TState), fin.ts[j]? = some t → ∃ v, t = TState.finished v ∧ (j, v) ∈ (seqRun progs order w0).2 := by
-  intro progs fin hall
-  have hb : ∀ p ∈ progs, p.Bracketed .doc doc := by
-    intro p hp
-    obtain ⟨x, hx, rfl⟩ := List.mem_map.mp hp
-    exact onDoc_bracketed cfg o doc x (hc x hx)
-  obtain ⟨order, h1, h2, h3, h4⟩ := serial_schedule .doc doc progs w0 hb (List.count_eq_zero.mpr h0) fuel sched hall
-  exact ⟨order, h1, fun j => by rw [h2 j]; simp [progs], h3, h4⟩
+  exact serial_of_bracketed cfg o .doc doc calls
+    (fun x hx => Prog.bracketedU_of_bracketed _ (onDoc_bracketed cfg o doc x (hc x hx))) w0 h0 fuel sched
 
 /-- … and is linearizable with respect to the specification: started on a
     directory that simulates `a` (in particular after any history from the empty
@@ -128,7 +123,7 @@ theorem single_document_class_linearizable (cfg : Config) (o : Oracle) (doc : St
       ∀ (j : Nat) (t : TState), fin.ts[j]? = some t →
         ∃ v, t = TState.finished v ∧ (j, v) ∈ order.zip (specHist cfg o (pick calls order) a).1 :=
   linearizable_of_bracketed cfg o .doc doc calls
-    (fun x hx => onDoc_bracketed cfg o doc x (hc x hx))
+    (fun x hx => Prog.bracketedU_of_bracketed _ (onDoc_bracketed cfg o doc x (hc x hx)))
     (fun x hx => by
       have := hc x hx
       cases x <;> first | trivial | exact this.elim)
